@@ -1,11 +1,12 @@
 #!/bin/bash
-# confirm_mutation.sh <prop> <k>: in the scratch worktree /tmp/mut/<prop>, confirm that
+# confirm_mutation.sh <mutation dir>   (e.g. /tmp/mut/C01/out/m1): in the scratch worktree that
+# contains it (<dir>/../..), confirm that
 #   (1) the patch applies, (2) the existing suite passes with it,
 #   (3) the demo fails with it, (4) the demo passes without it.
-# Writes /tmp/mut/<prop>/out/m<k>/confirm.json
+# Writes <dir>/confirm.json
 set -u
-P="$1"; K="$2"
-WT=/tmp/mut/$P; D=$WT/out/m$K
+if [ $# -ge 2 ]; then D="/tmp/mut/$1/out/m$2"; else D="$(cd "$1" && pwd)"; fi
+WT="$(cd "$D/../.." && pwd)"
 export RUSTUP_TOOLCHAIN=stable-x86_64-unknown-linux-gnu CARGO_NET_OFFLINE=true RUST_BACKTRACE=0
 cd "$WT" || exit 2
 git checkout -q -- . ; git clean -fdq -e out -e target
@@ -14,14 +15,11 @@ CMD=$(python3 -c "import json;print(json.load(open('$D/meta.json'))['demo_cmd'])
 DEMO=$(ls $D/*.rs | head -1)
 applies=false; suite=false; demo_fails=false; demo_passes=false
 cp "$DEMO" "$WT/$DEST"
-# (4) demo passes without the patch
 if (cd $WT && eval "$CMD") >$D/confirm_clean.log 2>&1; then demo_passes=true; fi
 if git apply --check "$D/patch.diff" 2>/dev/null; then applies=true; git apply "$D/patch.diff"; fi
 if $applies; then
-  # (3) demo fails with the patch
   if (cd $WT && eval "$CMD") >$D/confirm_patched.log 2>&1; then demo_fails=false; else demo_fails=true; fi
   rm -f "$WT/$DEST"
-  # (2) existing suite passes with the patch
   if cargo test --workspace --no-fail-fast --offline >$D/confirm_suite.log 2>&1; then suite=true; fi
 fi
 git checkout -q -- . ; git clean -fdq -e out -e target
